@@ -7,6 +7,7 @@ Local Open Scope R_scope.
 (* NumOps projections at ROps, and the derived constants *)
 Ltac rops := cbn [T add sub mul div opp ofZ leb ltb eqb floorZ sqrtT ROps fst snd] in *.
 Ltac rsimp := unfold two, half, one, zero, sq in *; rops.
+Ltac fnz := field; repeat split; assumption.      (* field, side conditions s <> 0 from the context *)
 Ltac tup := repeat match goal with |- (_, _) = (_, _) => apply f_equal2 end.
 
 (* ------------------------------------------------------------------ truncation *)
@@ -37,17 +38,12 @@ Proof.
 Qed.
 
 (* ------------------------------------------------------------------ scalar conversions (generated definitions) *)
-Lemma central_scaled_2d_eq H W sy sx oy ox :
-  @central_scaled_coordinate_2d_from ROps (H, W) (sy, sx) (oy, ox) =
-  (IZR (H - 1) / 2 + oy / sy, IZR (W - 1) / 2 - ox / sx).
-Proof. reflexivity. Qed.
-
 (* centre formula, continuous form: pixel position (pi, pj) |-> scaled coordinate *)
 Lemma scaled2_is_centre H W sy sx oy ox pi pj : sy <> 0 -> sx <> 0 ->
   @scaled_coordinates_2d_from ROps (pi, pj) (H, W) (sy, sx) (oy, ox) = (@cy_spec ROps H sy oy pi, @cx_spec ROps W sx ox pj).
 Proof.
   intros Hy Hx. unfold scaled_coordinates_2d_from, central_scaled_coordinate_2d_from, central_pixel_coordinates_2d_from, cy_spec, cx_spec.
-  rsimp. f_equal; field; assumption.
+  rsimp. f_equal; fnz.
 Qed.
 
 Lemma pix2_inside H W sy sx oy ox y x i j :
@@ -89,7 +85,7 @@ Lemma scaled1_is_centre n s o p : s <> 0 ->
   @scaled_coordinates_1d_from ROps p n s o = @cx_spec ROps n s o p.
 Proof.
   intros Hs. unfold scaled_coordinates_1d_from, central_scaled_coordinate_1d_from, central_pixel_coordinates_1d_from, cx_spec.
-  rsimp. field; assumption.
+  rsimp. fnz.
 Qed.
 Lemma pix1_inside n s o x j : 0 < s -> (0 <= j)%Z ->
   @cx_spec ROps n s o (IZR j) - s / 2 <= x < @cx_spec ROps n s o (IZR j) + s / 2 ->
@@ -134,15 +130,16 @@ Lemma centres_are_pix2 g H W sy sx oy ox : sy <> 0 -> sx <> 0 ->
 Proof.
   intros Hy Hx. unfold grid_pixel_centres_2d_slim_from. apply map_ext. intros [y x].
   unfold pixel_coordinates_2d_from, central_scaled_coordinate_2d_from, central_pixel_coordinates_2d_from. rsimp.
-  f_equal; f_equal; f_equal; field; assumption.
+  f_equal; f_equal; f_equal; fnz.
 Qed.
 Lemma indexes_are_pix2 g H W sy sx oy ox : sy <> 0 -> sx <> 0 ->
   @grid_pixel_indexes_2d_slim_from ROps g (H, W) (sy, sx) (oy, ox) =
   map (fun c => let p := @pixel_coordinates_2d_from ROps c (H, W) (sy, sx) (oy, ox) in IZR (fst p * W + snd p)) g.
 Proof.
   intros Hy Hx. unfold grid_pixel_indexes_2d_slim_from. cbv zeta. rewrite centres_are_pix2 by assumption.
-  rewrite map_map. apply map_ext. intros c. rsimp. cbv zeta. rops.
-  rewrite <- mult_IZR, <- plus_IZR, trunc_IZR. reflexivity.
+  rewrite map_map. apply map_ext. intros c. rsimp. cbv zeta. rops. f_equal.
+  match goal with |- trunc ?e = ?k => replace e with (IZR k) by (rewrite plus_IZR, mult_IZR; ring) end.
+  apply trunc_IZR.
 Qed.
 
 (* ------------------------------------------------------------------ pixel-centre grids of a mask *)
@@ -165,14 +162,14 @@ Proof.
   unfold unmasked, coords, mshape, rows, cols, zrange, seqZ, getm, mget2. cbn [fst snd].
   apply map_ext. intros [i j].
   unfold centre_spec, cy_spec, cx_spec, central_scaled_coordinate_2d_from, central_pixel_coordinates_2d_from. rsimp.
-  f_equal; field; assumption.
+  f_equal; fnz.
 Qed.
 Lemma grid1_mask_centres m s o : s <> 0 ->
   @grid_1d_slim_via_mask_from ROps m s o = map (@centre1_spec ROps (Z.of_nat (length m)) s o) (unmasked1 m).
 Proof.
   intros Hs. unfold grid_1d_slim_via_mask_from. cbv zeta. rewrite gather1_as_map_filter.
   unfold unmasked1, zrange, seqZ, mget1. apply map_ext. intros j.
-  unfold centre1_spec, cx_spec, central_scaled_coordinate_1d_from, central_pixel_coordinates_1d_from. rsimp. field; assumption.
+  unfold centre1_spec, cx_spec, central_scaled_coordinate_1d_from, central_pixel_coordinates_1d_from. rsimp. fnz.
 Qed.
 
 (* ------------------------------------------------------------------ continuous pixel coordinates and their inverse *)
@@ -182,38 +179,40 @@ Lemma scaled_of_pixels g H W sy sx oy ox : sy <> 0 -> sx <> 0 ->
   @grid_scaled_2d_slim_from ROps (@grid_pixels_2d_slim_from ROps g (H, W) (sy, sx) (oy, ox)) (H, W) (sy, sx) (oy, ox) = g.
 Proof.
   intros Hy Hx. unfold grid_scaled_2d_slim_from, grid_pixels_2d_slim_from. cbv zeta. rewrite map_map.
-  apply map_id_ext. intros [y x]. rsimp. f_equal; field; assumption.
+  apply map_id_ext. intros [y x]. rsimp. f_equal; fnz.
 Qed.
 Lemma pixels_of_scaled g H W sy sx oy ox : sy <> 0 -> sx <> 0 ->
   @grid_pixels_2d_slim_from ROps (@grid_scaled_2d_slim_from ROps g (H, W) (sy, sx) (oy, ox)) (H, W) (sy, sx) (oy, ox) = g.
 Proof.
   intros Hy Hx. unfold grid_scaled_2d_slim_from, grid_pixels_2d_slim_from. cbv zeta. rewrite map_map.
-  apply map_id_ext. intros [y x]. rsimp. f_equal; field; assumption.
+  apply map_id_ext. intros [y x]. rsimp. f_equal; fnz.
 Qed.
 Lemma pixels_are_spec g H W sy sx oy ox : sy <> 0 -> sx <> 0 ->
   @grid_pixels_2d_slim_from ROps g (H, W) (sy, sx) (oy, ox) = map (@pixels_spec ROps (H, W) (sy, sx) (oy, ox)) g.
 Proof.
   intros Hy Hx. unfold grid_pixels_2d_slim_from. cbv zeta. apply map_ext. intros [y x].
   unfold pixels_spec, hi_spec, lo_spec, central_scaled_coordinate_2d_from, central_pixel_coordinates_2d_from. rsimp.
-  rewrite !minus_IZR. f_equal; field; assumption.
+  rewrite !minus_IZR. f_equal; fnz.
 Qed.
 Lemma scaled_are_spec g H W sy sx oy ox : sy <> 0 -> sx <> 0 ->
   @grid_scaled_2d_slim_from ROps g (H, W) (sy, sx) (oy, ox) = map (@scaled_spec ROps (H, W) (sy, sx) (oy, ox)) g.
 Proof.
   intros Hy Hx. unfold grid_scaled_2d_slim_from. cbv zeta. apply map_ext. intros [y x].
   unfold scaled_spec, hi_spec, lo_spec, central_scaled_coordinate_2d_from, central_pixel_coordinates_2d_from. rsimp.
-  rewrite !minus_IZR. f_equal; field; assumption.
+  rewrite !minus_IZR. f_equal; fnz.
 Qed.
 (* the integer pixel index is the floor of the continuous pixel coordinate wherever that is non-negative *)
-Lemma centres_are_floor_of_pixels g sh s o :
-  Forall (fun p => 0 <= fst p /\ 0 <= snd p) (@grid_pixels_2d_slim_from ROps g sh s o) ->
-  @grid_pixel_centres_2d_slim_from ROps g sh s o =
-  map (fun p => (IZR (Rfloor (fst p)), IZR (Rfloor (snd p)))) (@grid_pixels_2d_slim_from ROps g sh s o).
+Lemma trunc_floor_eq a b : a = b -> 0 <= b -> @trunc ROps a = Rfloor b.
+Proof. intros E Hb. subst a. now apply trunc_R_nonneg. Qed.
+Lemma centres_are_floor_of_pixels g H W sy sx oy ox : sy <> 0 -> sx <> 0 ->
+  Forall (fun p => 0 <= fst p /\ 0 <= snd p) (@grid_pixels_2d_slim_from ROps g (H, W) (sy, sx) (oy, ox)) ->
+  @grid_pixel_centres_2d_slim_from ROps g (H, W) (sy, sx) (oy, ox) =
+  map (fun p => (IZR (Rfloor (fst p)), IZR (Rfloor (snd p)))) (@grid_pixels_2d_slim_from ROps g (H, W) (sy, sx) (oy, ox)).
 Proof.
-  unfold grid_pixel_centres_2d_slim_from, grid_pixels_2d_slim_from. cbv zeta. rewrite map_map.
+  intros Hy Hx. unfold grid_pixel_centres_2d_slim_from, grid_pixels_2d_slim_from. cbv zeta. rewrite map_map.
   induction g as [|c g IH]; intros Hf; [reflexivity|]. cbn [map] in *. inversion Hf as [|? ? [H1 H2] Hf']; subst.
   rewrite IH by assumption. cbn [fst snd] in H1, H2. rops.
-  rewrite !trunc_R_nonneg by assumption. reflexivity.
+  f_equal. f_equal; f_equal; (apply trunc_floor_eq; [fnz | assumption]).
 Qed.
 
 (* ------------------------------------------------------------------ extent *)
@@ -302,79 +301,80 @@ Proof. intros Ha. rewrite <- sqrt_leb_sq by assumption. apply Rleb_true. Qed.
 Lemma sqrt_ge_iff a r : 0 <= a -> (@sqrt_ge ROps a r = true <-> r <= sqrt a).
 Proof. intros Ha. rewrite <- sqrt_geb_sq by assumption. apply Rleb_true. Qed.
 
-(* the code's pixel offsets are the specification's (y flipped: it only enters through squares / the rotation) *)
-Lemma code_offsets H W sy sx cy cx (y x : Z) : sy <> 0 -> sx <> 0 ->
-  let cs := @mask_2d_centres_from ROps (H, W) (sy, sx) (cy, cx) in
-  let d := @offset ROps (H, W) (sy, sx) (cy, cx) (y, x) in
-  (IZR y - fst cs) * sy = - fst d /\ (IZR x - snd cs) * sx = snd d.
-Proof.
-  intros Hy Hx. unfold mask_2d_centres_from, offset, centre_spec, cy_spec, cx_spec. rsimp. split; field; assumption.
-Qed.
-
 Lemma if_negb (b : bool) : (if b then false else true) = negb b.
 Proof. destruct b; reflexivity. Qed.
-Lemma code_dist2 (d : R * R) : snd d * snd d + - fst d * - fst d = @dist2 ROps d.
-Proof. unfold dist2. rsimp. ring. Qed.
+Lemma dist2_nonneg (d : R * R) : 0 <= @dist2 ROps d.
+Proof. unfold dist2. rsimp. nra. Qed.
 
 Ltac mask_pointwise y x :=
-  unfold mask_of, zrange, seqZ; cbn [fst snd]; apply map_ext; intros y; apply map_ext; intros x.
+  unfold mask_of, zrange, seqZ; cbn [fst snd]; apply map_ext; intros y; apply map_ext; intros x; rops.
+(* the argument of the code's sqrt, whatever its algebraic form, is the squared distance of the specification *)
+Ltac code_radius2_is H W sy sx cy cx y x :=
+  match goal with |- context [sqrt ?A] =>
+    replace A with (@dist2 ROps (@offset ROps (H, W) (sy, sx) (cy, cx) (y, x)))
+      by (unfold dist2, offset, centre_spec, cy_spec, cx_spec, mask_2d_centres_from; rsimp; fnz)
+  end;
+  rewrite ?sqrt_leb_sq, ?sqrt_geb_sq by apply dist2_nonneg.
 
 Lemma circular_is_spec H W sy sx r cy cx : sy <> 0 -> sx <> 0 ->
   @mask_2d_circular_from ROps (H, W) (sy, sx) r (cy, cx) = mask_of (H, W) (@circ_inside ROps (H, W) (sy, sx) r (cy, cx)).
 Proof.
-  intros Hy Hx. unfold mask_2d_circular_from. cbv zeta. mask_pointwise y x.
-  destruct (code_offsets H W sy sx cy cx y x Hy Hx) as [Ey Ex]. cbv zeta in Ey, Ex.
-  unfold circ_inside. rops. rewrite Ey, Ex. set (d := @offset ROps (H, W) (sy, sx) (cy, cx) (y, x)).
-  rewrite sqrt_leb_sq by nra. rewrite code_dist2. apply if_negb.
+  intros Hy Hx. unfold mask_2d_circular_from. cbv zeta. mask_pointwise y x. code_radius2_is H W sy sx cy cx y x.
+  unfold circ_inside. destruct (@sqrt_le ROps _ r); reflexivity.
 Qed.
 Lemma annular_is_spec H W sy sx ri ro cy cx : sy <> 0 -> sx <> 0 ->
   @mask_2d_circular_annular_from ROps (H, W) (sy, sx) ri ro (cy, cx) =
   mask_of (H, W) (@ann_inside ROps (H, W) (sy, sx) ri ro (cy, cx)).
 Proof.
-  intros Hy Hx. unfold mask_2d_circular_annular_from. cbv zeta. mask_pointwise y x.
-  destruct (code_offsets H W sy sx cy cx y x Hy Hx) as [Ey Ex]. cbv zeta in Ey, Ex.
-  unfold ann_inside. cbv zeta. rops. rewrite Ey, Ex. set (d := @offset ROps (H, W) (sy, sx) (cy, cx) (y, x)).
-  rewrite sqrt_leb_sq, sqrt_geb_sq by nra. rewrite code_dist2, if_negb. f_equal. apply andb_comm.
+  intros Hy Hx. unfold mask_2d_circular_annular_from. cbv zeta. mask_pointwise y x. code_radius2_is H W sy sx cy cx y x.
+  unfold ann_inside. cbv zeta. destruct (@sqrt_le ROps _ ro), (@sqrt_ge ROps _ ri); reflexivity.
 Qed.
 Lemma anti_annular_is_spec H W sy sx ri ro ro2 cy cx : sy <> 0 -> sx <> 0 ->
   @mask_2d_circular_anti_annular_from ROps (H, W) (sy, sx) ri ro ro2 (cy, cx) =
   mask_of (H, W) (@anti_inside ROps (H, W) (sy, sx) ri ro ro2 (cy, cx)).
 Proof.
-  intros Hy Hx. unfold mask_2d_circular_anti_annular_from. cbv zeta. mask_pointwise y x.
-  destruct (code_offsets H W sy sx cy cx y x Hy Hx) as [Ey Ex]. cbv zeta in Ey, Ex.
-  unfold anti_inside. cbv zeta. rops. rewrite Ey, Ex. set (d := @offset ROps (H, W) (sy, sx) (cy, cx) (y, x)).
-  rewrite !sqrt_leb_sq, sqrt_geb_sq by nra. rewrite code_dist2, if_negb. f_equal. f_equal. apply andb_comm.
+  intros Hy Hx. unfold mask_2d_circular_anti_annular_from. cbv zeta. mask_pointwise y x. code_radius2_is H W sy sx cy cx y x.
+  unfold anti_inside. cbv zeta. destruct (@sqrt_le ROps _ ri), (@sqrt_le ROps _ ro2), (@sqrt_ge ROps _ ro); reflexivity.
 Qed.
 
-(* hand model of the elliptical constructors = specification (the rotation in true (y up) coordinates) *)
-Lemma ell_radius_is_spec dy dx c s q : q <> 0 ->
-  let a := @ell2 ROps (dy, dx) (c, s) q in
-  0 <= a /\ @elliptical_radius_from_cs ROps (- dy) dx (c, s) q = sqrt a.
+(* executable (cos, sin)-pair form of the elliptical radius: it is sqrt of the specification's ell2 at the offset (-ys, xs)
+   (the code's y runs downward) *)
+Lemma ell_cs_sqrt ys xs c s q : q <> 0 ->
+  @elliptical_radius_from_cs ROps ys xs (c, s) q = sqrt (@ell2 ROps (- ys, xs) (c, s) q) /\ 0 <= @ell2 ROps (- ys, xs) (c, s) q.
 Proof.
-  intros Hq a. unfold a, ell2, elliptical_radius_from_cs. rsimp. split.
-  - assert (A : forall u v : R, 0 <= u * u + v * v) by (intros; nra). apply A.
+  intros Hq. unfold ell2, elliptical_radius_from_cs. rsimp. split.
   - f_equal. field. assumption.
+  - assert (A : forall u v : R, 0 <= u * u + v * v) by (intros; nra). apply A.
 Qed.
+Lemma ell2_nonneg d c s q : q <> 0 -> 0 <= @ell2 ROps d (c, s) q.
+Proof. intros Hq. unfold ell2. rsimp. assert (A : forall u v : R, 0 <= u * u + v * v) by (intros; nra). apply A. Qed.
+(* the argument (-ys, xs) of ell2 after [ell_cs_sqrt], whatever the algebraic form of the code's ys / xs, is the offset *)
+Ltac code_ell2_is H W sy sx cy cx y x :=
+  repeat match goal with |- context [sqrt (@ell2 ROps ?D ?CS ?Q)] =>
+    lazymatch D with
+    | @offset _ _ _ _ _ => fail
+    | _ => replace (@ell2 ROps D CS Q) with (@ell2 ROps (@offset ROps (H, W) (sy, sx) (cy, cx) (y, x)) CS Q)
+             by (unfold ell2, offset, centre_spec, cy_spec, cx_spec, mask_2d_centres_from; rsimp; fnz)
+    end
+  end;
+  rewrite ?sqrt_leb_sq, ?sqrt_geb_sq by (apply ell2_nonneg; assumption).
+
 Lemma elliptical_is_spec H W sy sx R q c s cy cx : sy <> 0 -> sx <> 0 -> q <> 0 ->
   @mask_2d_elliptical_from_cs ROps (H, W) (sy, sx) R q (c, s) (cy, cx) =
   mask_of (H, W) (@ell_inside ROps (H, W) (sy, sx) R q (c, s) (cy, cx)).
 Proof.
   intros Hy Hx Hq. unfold mask_2d_elliptical_from_cs. cbv zeta. mask_pointwise y x.
-  destruct (code_offsets H W sy sx cy cx y x Hy Hx) as [Ey Ex]. cbv zeta in Ey, Ex.
-  unfold ell_inside. rops. rewrite Ey, Ex. set (d := @offset ROps (H, W) (sy, sx) (cy, cx) (y, x)).
-  destruct (ell_radius_is_spec (fst d) (snd d) c s q Hq) as [Ha Er]. cbv zeta in Ha, Er. rops.
-  rewrite Er, sqrt_leb_sq by exact Ha. rewrite <- surjective_pairing. apply if_negb.
+  rewrite (proj1 (ell_cs_sqrt _ _ c s q Hq)). code_ell2_is H W sy sx cy cx y x.
+  unfold ell_inside. destruct (@sqrt_le ROps _ R); reflexivity.
 Qed.
 Lemma elliptical_annular_is_spec H W sy sx Ri qi ci si Ro qo co so cy cx : sy <> 0 -> sx <> 0 -> qi <> 0 -> qo <> 0 ->
   @mask_2d_elliptical_annular_from_cs ROps (H, W) (sy, sx) Ri qi (ci, si) Ro qo (co, so) (cy, cx) =
   mask_of (H, W) (@ellann_inside ROps (H, W) (sy, sx) Ri qi (ci, si) Ro qo (co, so) (cy, cx)).
 Proof.
   intros Hy Hx Hqi Hqo. unfold mask_2d_elliptical_annular_from_cs. cbv zeta. mask_pointwise y x.
-  destruct (code_offsets H W sy sx cy cx y x Hy Hx) as [Ey Ex]. cbv zeta in Ey, Ex.
-  unfold ellann_inside. cbv zeta. rops. rewrite Ey, Ex. set (d := @offset ROps (H, W) (sy, sx) (cy, cx) (y, x)).
-  destruct (ell_radius_is_spec (fst d) (snd d) ci si qi Hqi) as [Hai Eri]. cbv zeta in Hai, Eri.
-  destruct (ell_radius_is_spec (fst d) (snd d) co so qo Hqo) as [Hao Ero]. cbv zeta in Hao, Ero. rops.
-  rewrite Eri, Ero, sqrt_leb_sq, sqrt_geb_sq by assumption. rewrite <- surjective_pairing. apply if_negb.
+  rewrite (proj1 (ell_cs_sqrt _ _ ci si qi Hqi)), (proj1 (ell_cs_sqrt _ _ co so qo Hqo)).
+  code_ell2_is H W sy sx cy cx y x.
+  unfold ellann_inside. cbv zeta. destruct (@sqrt_ge ROps _ Ri), (@sqrt_le ROps _ Ro); reflexivity.
 Qed.
 
 (* ------------------------------------------------------------------ composed statements used by Props/C02.v *)
